@@ -9,20 +9,27 @@ CFG = {
                    "to cooperative locks (mode B), so that 2-4 named actor goroutines are interleaved at every atomic load/CAS/store, lock acquisition and directory operation, also inside critical sections; "
                    "oracle = holder-count reference model checked after every driver step (held => index open, tables open, directory on disk, refCount >= holders; flagged => removed exactly when the last "
                    "holder is gone and never reopened; at the end all counts 0, idle reclaim closes everything, closed segments reopen with their data, retention removes everything expired). "
-                   "Scenario 'enumerate' additionally enumerates schedules of <=3 actors x <=3 operations with ALL gates armed, breadth-first by number of deviations from the default "
-                   "(run-until-yield, round-robin) schedule"),
+                   "Scenario 'enumerate' additionally enumerates schedules of <=3 actors x <=3 operations with ALL gates armed: every schedule is re-run from the start with a forced list of choices "
+                   "('which parked goroutine next'), remaining choices = first of the parked list (rotated so that the goroutine that ran last continues until it yields at a harness gate, then round-robin), "
+                   "explored breadth-first by the number of deviations from that default schedule"),
     "level_note": ("trusted: the holder-count model, the gate inserter (tools/gaterw) and simcore's cooperative locks; 'enumerate' is exhaustive only at gate granularity (not machine instructions), only for the "
-                   "actor programs sampled by the seed, and only up to the per-seed budget of 300 schedules: deviation level 0 and (when it fits) level 1 are complete, deeper levels are cut by the budget "
-                   "(probes reach.enum_level1_complete / reach.enum_budget_exhausted say how often); bluge and the file system run atomically between gates"),
+                   "actor programs sampled by the seed, and only up to the per-seed budget of 300 schedules: all schedules with 0 and 1 deviations from the default schedule are covered (probe "
+                   "reach.enum_level1_complete), those with 2 deviations only for small programs (reach.enum_level2_complete), deeper levels are cut by the budget (reach.enum_budget_exhausted; "
+                   "reach.enum_all_schedules_complete counts the seeds whose whole schedule tree fitted); in 'enumerate' the reopen+retention epilogue runs for every 4th schedule only; "
+                   "after 100 (140) fine-grained driver steps only harness gates and lock waits still park; bluge and the file system run atomically between gates. "
+                   "While the family in-use:holder-reference-stolen:* is a known finding, schedules that contain a peek select / retention pass and then lose a holder's reference are abandoned at that point; "
+                   "half of the seeds ('pinned_only') contain no such operation and judge everything else at full strength"),
     "budget": {"quick": 60, "thorough": 900},
-    "rule": ("'schedules': each seed draws 1-4 day segments (open-dormant, idle-eligible or idle-closed; some already past the TTL), idle timeout, TTL, a ~50% subset of armed gate sites, and for each of 2-4 actors "
+    "rule": ("'schedules': each seed draws 1-4 day segments (open-dormant, idle-eligible or idle-closed; some already past the TTL), idle timeout, TTL (1-3 days), a ~50% subset of armed gate sites (35/50/65/100%), "
+             "optionally one of two focused mixes (retention pass against a multi-segment query; release + forced delete + re-create of the oldest day) and for each of 2-4 actors "
              "a program of 1-4 operations from {SelectSegments(range, reopen) hold DecRef, SelectSegments(range, peek) hold DecRef, CreateSegmentIfNotExist hold DecRef, idle-reclaim pass, retention run, "
              "DeleteOldestSegment, TakeFileSnapshot, metrics collect, Tick, clock advance (10-minute ticker / idle timeout / next 00:05 cron), Close}; the tape then picks which parked goroutine proceeds at "
              "every quiescent point (<=100 steps). 'enumerate': 2-3 actors x 1-3 operations, all gates armed, up to 300 schedules per seed. Non-trivial = at least two actors were inside the engine at the "
              "same time on the same database; distinct = canonical event-log digests"),
-    "expected_probes": ["reach.cas_fast_path", "reach.slow_path_acquire", "reach.reopen_closed_segment", "reach.acquire_refused_closed", "reach.idle_close_raced_acquire",
-                        "reach.deferred_delete_at_last_decref", "reach.peek_path_unpinned", "reach.idle_close_closed_segment", "reach.retention_deleted_segment", "reach.forced_delete",
-                        "reach.lock_wait_parked", "reach.schedules_enumerated", "reach.final_idle_close_checked", "reach.final_retention_checked"],
+    "expected_probes": ["reach.cas_fast_path", "reach.slow_path_acquire", "reach.acquire_found_holder_after_lock", "reach.reopen_closed_segment", "reach.acquire_refused_closed",
+                        "reach.idle_close_raced_acquire", "reach.deferred_delete_at_last_decref", "reach.peek_path_unpinned", "reach.peek_filtered_expired_segment", "reach.idle_close_closed_segment",
+                        "reach.retention_deleted_segment", "reach.forced_delete", "reach.lock_wait_parked", "reach.schedules_enumerated", "reach.enum_level1_complete",
+                        "reach.final_idle_close_checked", "reach.final_retention_checked", "reach.close_checked"],
     "gates": [
         {"files": ["banyand/internal/storage/segment.go", "banyand/internal/storage/tsdb.go", "banyand/internal/storage/rotation.go"], "mode": "B"},
         # only so that the rotation goroutine, the cron task and its action goroutine get deterministic actor names and cooperative locks
@@ -36,6 +43,8 @@ CFG = {
     "assumptions": STD_ASSUME + [
         "Close() releases every segment regardless of holders by design (callers stop their users first): from the moment Close is called the 'held => open' obligations are void; only crashes, "
         "directories of unflagged segments and never-recreated directories are still checked",
+        "an operation that Close overtakes may fail or panic (e.g. TakeFileSnapshot dereferences the index Close has just released); counted by reach.op_panicked_during_close, not judged",
         "the accessor views (refCount, index open, mustBeDeleted) are read without locks at quiescent points",
+        "debugging aid: VERIF_C14_TOLERATE=<class prefix>,... abandons schedules that hit these classes instead of reporting them (used for sensitivity drills; never set by bin/check)",
     ],
 }
